@@ -70,7 +70,7 @@ def gen_span(rng, risky=False):
     span['power_mode'] = rng.random() < 0.75
     span['delta_power_range_db'] = rng.choice([[-2, 3, 0.5], [-2, 3, 0.5], [0, 0, 0.5], [-1, 1, 0.1], [-6, 0, 1]])
     # valid stream: min_length = max(padding / 0.2 km, 50 km) must not exceed max_length (finding F16 otherwise)
-    while int(span['padding'] / 0.2 * 1e3) > int(span['max_length'] * 1000.0):
+    while int(span['padding'] / 0.2 * 1e3) > max_metres(span):
         span['padding'] = rng.choice([10, 8, 11, 0, 5])
     if risky:
         if rng.random() < 0.5:
@@ -79,6 +79,16 @@ def gen_span(rng, risky=False):
             span['padding'] = rng.choice([40, 35, 31])
             span['max_length'] = rng.choice([150, 120, 100])
     return span
+
+
+def max_km(span):
+    """Span.max_length in km, whatever unit the configuration uses"""
+    return span['max_length'] / 1000.0 if span.get('length_units', 'km') == 'm' else span['max_length']
+
+
+def max_metres(span):
+    """int(convert_length(max_length, length_units)) recomputed here: the configured unit decides"""
+    return int(float(span['max_length'])) if span.get('length_units', 'km') == 'm' else int(span['max_length'] * 1000.0)
 
 
 def gen_length(rng, max_km):
@@ -149,7 +159,7 @@ def gen_amp(rng, uid, power_mode, before_raman=False):
 
 def gen_line(rng, tag, span, feat):
     """one direction of a link: a chain of fibres / fused / user amplifiers"""
-    max_km = span['max_length']
+    max_km = span['max_length']          # still in km here: the unit is chosen at the end of gen_case
     els, k = [], [0]
     lum = feat.get('lumped', True)
 
@@ -289,18 +299,46 @@ def gen_case(rng, kind='valid'):
         rz = roadms[rng.choice(sorted(roadms))]
         rz.pop('params', None)
         rz['target_pch_out_db'] = 0
-    if rng.random() < 0.08:
-        # a transceiver reached through fibre (no ROADM in between)
-        x = rng.choice(names)
-        lines.append({'src': f'roadm {x}', 'dst': 'trx Z', 'els': [gen_fiber(rng, 'fiber toZ', span['max_length'], allow_lumped=False)]})
-        lines.append({'src': 'trx Z', 'dst': f'roadm {x}', 'els': [gen_fiber(rng, 'fiber fromZ', span['max_length'], allow_lumped=False)]})
-        case['extra_trx'] = ['trx Z']
+    if rng.random() < 0.2:
+        # external transponders on a line end: a transceiver reached through fibre without a ROADM of its own,
+        # bidirectional, source only (no incoming link) or sink only (no outgoing link)
+        case['extra_trx'] = []
+        for tname, mode in zip(('trx Z', 'trx Y'), rng.sample(['both', 'source', 'sink', 'both'], 2)[:rng.choice([1, 1, 2])]):
+            x = rng.choice(names)
+            tag = tname[-1]
+
+            def ext_line(label):
+                els = [gen_fiber(rng, f'fiber {label}{tag}1', span['max_length'], allow_lumped=False)]
+                r = rng.random()
+                if r < 0.3:
+                    els.append(gen_fiber(rng, f'fiber {label}{tag}2', span['max_length'], allow_lumped=False))
+                elif r < 0.45:
+                    els += [{'k': 'U', 'uid': f'fused {label}{tag}', 'loss': 0.5},
+                            gen_fiber(rng, f'fiber {label}{tag}2', span['max_length'], allow_lumped=False)]
+                return els
+            if mode in ('both', 'sink'):
+                lines.append({'src': f'roadm {x}', 'dst': tname, 'els': ext_line('to')})
+            if mode in ('both', 'source'):
+                lines.append({'src': tname, 'dst': f'roadm {x}', 'els': ext_line('from')})
+            case['extra_trx'].append(tname)
+    # units: Span.max_length in metres for a quarter of the configurations, fibres' own length in metres now and then
+    if rng.random() < 0.25:
+        span['max_length'] = span['max_length'] * 1000
+        span['length_units'] = 'm'
+    for ln in lines:
+        for e in ln['els']:
+            if e['k'] in 'FR' and rng.random() < 0.15:
+                e['units'] = 'm'
     return case
 
 
 def el_json(e):
     if e['k'] in 'FR':
-        p = {'length': e['len'], 'length_units': 'km', 'loss_coef': e['lc'], 'con_in': e['con_in'], 'con_out': e['con_out']}
+        if e.get('units') == 'm':
+            p = {'length': round(e['len'] * 1000.0, 6), 'length_units': 'm'}
+        else:
+            p = {'length': e['len'], 'length_units': 'km'}
+        p.update({'loss_coef': e['lc'], 'con_in': e['con_in'], 'con_out': e['con_out']})
         if 'att_in' in e:
             p['att_in'] = e['att_in']
         if 'lumped' in e:
@@ -479,7 +517,7 @@ def drive(case):
 # ------------------------------------------------------------------ model side
 def cfg_of(span):
     """inputs of the model that the harness computes on its own (so a changed constant in gnpy is a diff)"""
-    max_m = int(span['max_length'] * 1000.0)
+    max_m = max_metres(span)
     pad_len = int(span['padding'] / 0.2 * 1e3)
     return {'max': max_m, 'padlen': pad_len, 'pad': span['padding'], 'con_in': span['con_in'],
             'con_out': span['con_out'], 'eol': span['EOL']}
@@ -666,7 +704,7 @@ def oracle_python(case, rec):
         d = sorted(rec['reach_before'] ^ rec['reach_after'])[:3]
         fails.append(('reachability_changed', f'pairs {d}', {}))
     b_by_key = {(ln['src'], ln['first']): ln for ln in rec['before']}
-    max_m = int(case['span']['max_length'] * 1000.0)
+    max_m = max_metres(case['span'])
     cfg = cfg_of(case['span'])
     min_above_max = max(cfg['padlen'], 50000) > cfg['max']
 
@@ -682,6 +720,10 @@ def oracle_python(case, rec):
         for e in ln['els']:
             if e['k'] in 'FR':
                 after_fibres[e['uid']] = e
+    next_is_fused = {}
+    for ln in rec['after']:
+        for i, e in enumerate(ln['els']):
+            next_is_fused[e['uid']] = i + 1 < len(ln['els']) and ln['els'][i + 1]['k'] == 'U'
     groups = {}
     for uid, e in after_fibres.items():
         sb = split_base(uid)
@@ -710,6 +752,16 @@ def oracle_python(case, rec):
         la = sum(l for p in parts for _, l in p['lumped'])
         if not close(lb, la):
             fails.append(('split_lumped', f'{uid}: lumped losses {lb} dB before, {la} dB after the split into {len(parts)}', det(uid, b, parts)))
+        # connector losses as supplied: a given value is kept, a missing one gets the Span default; EOL on top of
+        # con_out unless a Fused follows
+        for p in parts:
+            exp_in = b['con_in'] if b['con_in'] is not None else case['span']['con_in']
+            exp_out = (b['con_out'] if b['con_out'] is not None else case['span']['con_out']) + \
+                (0 if next_is_fused.get(p['uid']) else case['span']['EOL'])
+            if not close(p['con_in'], exp_in) or not close(p['con_out'], exp_out):
+                fails.append(('connector_value', f'{p["uid"]}: con_in/con_out {p["con_in"]}/{p["con_out"]}, expected '
+                              f'{exp_in}/{exp_out} from the input {b["con_in"]}/{b["con_out"]} and the Span defaults', det(uid, b, parts)))
+                break
         if len(parts) > 1 and b['k'] == 'R':
             fails.append(('split_raman_lost', f'{uid}: Raman fibre replaced by {len(parts)} plain Fiber spans', det(uid, b, parts)))
     return fails
